@@ -92,4 +92,6 @@ static Register t1("c02.trim.n3s3pk3", "C02", "pairs of TRIMMED automata of TA(3
 static Register t2("c02.trim.n3afhk3", "C02", "pairs of TRIMMED automata of TA(3,{a:0,f:1,h:3},<=3 per side) (ternary symbol)", [](Env& e) { body(e, "c02.trim.n3afhk3", 3, dom::SigmaAFH(), 3, 6, true); });
 static Register t3("c02.trim.n3s3pk4", "C02", "pairs of TRIMMED automata of TA(3,{a:0,f:1,g:2},<=4 per side), total <=7", [](Env& e) { body(e, "c02.trim.n3s3pk4", 3, dom::Sigma3p(), 4, 7, true); });
 static Register t4("c02.trim.n4s3pk3", "C02", "pairs of TRIMMED automata of TA(4,{a:0,f:1,g:2},<=3 per side)", [](Env& e) { body(e, "c02.trim.n4s3pk3", 4, dom::Sigma3p(), 3, 6, true); });
+static Register t5("c02.trim.n3abfk4", "C02", "pairs of TRIMMED automata of TA(3,{a:0,b:0,f:1},<=4 per side) (word-like)", [](Env& e) { body(e, "c02.trim.n3abfk4", 3, dom::SigmaABF(), 4, 8, true); });
+static Register t6("c02.trim.n3abfk3", "C02", "pairs of TRIMMED automata of TA(3,{a:0,b:0,f:1},<=3 per side)", [](Env& e) { body(e, "c02.trim.n3abfk3", 3, dom::SigmaABF(), 3, 6, true); });
 }  // namespace c02
